@@ -198,6 +198,10 @@ def fam_batch(ctx, rng):
                 fn = os.path.join("data", fn)
             elif k < 0.3:
                 fn = os.path.join(d, "data", fn)
+            elif k < 0.4:
+                fn = "./" + fn                                  # as shell completion / find . -name writes it
+            elif k < 0.5:
+                fn = ["data//" + fn, "data/./" + fn, "./data/" + fn][int(rng.integers(0, 3))]
             # record lengths: a bit more than 2 or 3 windows, or EXACTLY 2 / 3 windows' worth of samples (the last
             # window is then one sample short), or one sample more than that
             if rng.random() < 0.35:
